@@ -221,6 +221,12 @@ class Interp(object):
         return self.native_guarded(f, args, kwargs)
 
     def native(self, f, args, kwargs, model_call=False):
+        if not model_call:
+            mod = getattr(f, '__module__', None) or getattr(getattr(f, '__self__', None), '__module__', None) or ''
+            if not isinstance(mod, str):
+                mod = ''
+            if mod.startswith(('pyvc', 'contracts', 'spec')):
+                model_call = True      # our own value/model classes raise program exceptions deliberately
         try:
             return f(*args, **kwargs)
         except INTERNAL:
@@ -570,7 +576,7 @@ class Interp(object):
         if isinstance(t, ast.Name):
             self.store_name(t.id, v, frame)
         elif isinstance(t, ast.Attribute):
-            self.setattr_(self.eval(t.value, frame), t.attr, v)
+            self.setattr_(self.eval(t.value, frame), self.mangle(t.attr, frame), v)
         elif isinstance(t, ast.Subscript):
             self.setitem(self.eval(t.value, frame), self.eval_index(t.slice, frame), v)
         elif isinstance(t, (ast.Tuple, ast.List)):
@@ -827,7 +833,22 @@ class Interp(object):
         return self.load_name(e.id, frame)
 
     def e_Attribute(self, e, frame):
-        return self.getattr_(self.eval(e.value, frame), e.attr)
+        return self.getattr_(self.eval(e.value, frame), self.mangle(e.attr, frame))
+
+    def mangle(self, name, frame):
+        """Private-name mangling of __x inside a class body, as the compiler does."""
+        if name.startswith('__') and not name.endswith('__'):
+            parts = frame.qualname.split('.')
+            # the innermost enclosing class: the component before the function name, skipping <locals>
+            for i in range(len(parts) - 2, -1, -1):
+                if parts[i] == '<locals>':
+                    continue
+                if parts[i][:1].isupper() or parts[i].startswith('_'):
+                    cls = parts[i].lstrip('_')
+                    if cls:
+                        return '_%s%s' % (cls, name)
+                break
+        return name
 
     def e_Tuple(self, e, frame):
         return tuple(self.eval_seq(e.elts, frame))
